@@ -100,6 +100,27 @@ func c06R2(c *Ctx) {
 	nCtx, nSignal := 0, 0
 	var bad []pevent
 	why := ""
+	// the signaller: the function of the plugin package that sends on the cancel-signal channel
+	signaller := ""
+	if sf := c.field(pkgPlugin, "runningStep", "signalToStep"); sf != nil {
+		for _, fn := range c.inPkgs(c.runFns(), pkgPlugin) {
+			eachInstr(fn, func(r instrRef) {
+				switch x := r.I.(type) {
+				case *ssa.Send:
+					if loadedField(x.Chan) == sf {
+						signaller = c.fnName(fn)
+					}
+				case *ssa.Select:
+					for _, st := range x.States {
+						if st.Dir == types.SendOnly && loadedField(st.Chan) == sf {
+							signaller = c.fnName(fn)
+						}
+					}
+				}
+			})
+		}
+	}
+	var unsignalled []pevent
 	for _, t := range ts.traces {
 		// the running stage's select: desc mentions executionChannel and ctx.Done, taken ctx.Done
 		idx := -1
@@ -120,6 +141,19 @@ func c06R2(c *Ctx) {
 		}
 		force := hasEvent(rest, "enter", "(*plugin.runningStep).forceCloseInternal") >= 0
 		result := hasEvent(rest, "select", "recv:executionChannel") >= 0
+		// before the path settles down to wait for the plugin, the signaller (which sends the signal if the plugin is
+		// executing) or the forced close must have been entered
+		if signaller != "" && unsignalled == nil {
+			for _, e := range rest {
+				if e.Kind == "enter" && len(e.Args) > 0 && (e.Args[0] == signaller || e.Args[0] == "(*plugin.runningStep).forceCloseInternal") {
+					break
+				}
+				if e.Kind == "select" && len(e.Args) > 0 && (e.Args[0] == "recv:executionChannel" || e.Args[0] == "recv:time.After") {
+					unsignalled = t
+					break
+				}
+			}
+		}
 		timer := -1
 		for i, e := range rest {
 			if e.Kind == "select" && e.Args[0] == "recv:time.After" {
@@ -149,6 +183,12 @@ func c06R2(c *Ctx) {
 		path = []string{traceString(bad)}
 	}
 	c.verdict(bad == nil && nCtx > 0, rule, "cancel-reaches-plugin", c.pos(ts.root.Pos()), fmt.Sprintf("all %d context-done paths of the running stage end by result, or timer + forced close, or forced close", nCtx), why, path...)
+	var upath []string
+	if unsignalled != nil {
+		upath = []string{traceString(unsignalled)}
+	}
+	c.verdict(signaller != "" && unsignalled == nil, rule, "signal-before-wait", c.pos(ts.root.Pos()), "every context-done path enters "+signaller+" (or the forced close) before it waits for the plugin",
+		"a context-done path of the running stage waits for the plugin's result (or the closure timeout) without having entered the function that sends the cancel signal ("+signaller+") or the forced close: the plugin is never told to stop and runs out the whole closure timeout", upath...)
 	c.verdict(nSignal > 0, rule, "cancel-signal-sent", c.pos(ts.root.Pos()), fmt.Sprintf("%d context-done paths send the cancel signal", nSignal), "no explored path sends the cancel signal to a running plugin when the step context is cancelled")
 	c.minCount(rule, "context-done paths of the running stage", nCtx, 20)
 }
